@@ -641,6 +641,7 @@ static ssize_t ck_read(void *c, char *buf, size_t n)
     if (out == FO_ETRANSIENT) { fault_fired(FC_READ, FO_ETRANSIENT); tr_printf("stream read -> EINTR (once)"); simfd_stream_transient++; simfd_last_cookie_pos = s->pos;
         if (simfd_ntransient < SIMFD_TRANS_MAX) { simfd_transient_log[simfd_ntransient].stream = s->id; simfd_transient_log[simfd_ntransient].pos = s->pos; simfd_ntransient++; }
         errno = EINTR; return -1; }      /* nothing delivered, nothing broken: the next read carries on */
+    if (out == FO_EAGAIN) { fault_fired(FC_READ, FO_EAGAIN); tr_printf("stream read -> EAGAIN (once)"); simfd_stream_transient++; simfd_last_cookie_pos = s->pos; errno = EAGAIN; return -1; }      /* a non-blocking source with nothing to give just now: fgets() hands out what it has of the line and carries on next time */
     if (out == FO_SHORT && take > 1) {
         size_t lim = (size_t)F_PARAM(f);
         if (lim < 1) lim = 1;
